@@ -59,7 +59,8 @@ RECURSIVE V(_,_), MapLines(_,_), SeqLines(_,_)
 V(n, ind) ==
   IF n.k = "alias" THEN [first |-> "*" \o n.to \o LC(n), rest |-> <<>>]
   ELSE IF IsBlockScalar(n) THEN [first |-> Pre(n) \o n.src[1] \o LC(n), rest |-> [i \in 1..(Len(n.src) - 1) |-> IF n.src[i + 1] = "" THEN L(0, "") ELSE L(ind + 2, n.src[i + 1])]]
-  ELSE IF n.k = "scalar" THEN [first |-> Pre(n) \o n.src[1] \o LC(n), rest |-> <<>>]
+  ELSE IF n.k = "scalar" THEN [first |-> Pre(n) \o n.src[1] \o (IF Len(n.src) = 1 THEN LC(n) ELSE ""),            \* a flow scalar folded over several lines
+                               rest |-> [i \in 1..(Len(n.src) - 1) |-> L(ind + 2, n.src[i + 1] \o (IF i = Len(n.src) - 1 THEN LC(n) ELSE ""))]]
   ELSE IF ~IsBlockColl(n) THEN [first |-> Flow(n) \o LC(n), rest |-> <<>>]
   ELSE IF n.k = "map" THEN [first |-> PreBare(n) \o LC(n), rest |-> MapLines(n, ind + 2)]
   ELSE [first |-> PreBare(n) \o LC(n), rest |-> SeqLines(n, ind + 2)]
@@ -81,13 +82,14 @@ Text(lines) == [i \in DOMAIN lines |-> Spaces(lines[i].i) \o lines[i].t]
 TextWide(lines) == [i \in DOMAIN lines |-> Spaces(2 * lines[i].i) \o lines[i].t]      \* the same stream indented by 4
 
 \* ---- documents and streams
-Doc(lead, sep, root, foot) == [lead |-> lead, sep |-> sep, root |-> root, foot |-> foot]
+Doc(lead, sep, root, foot) == [lead |-> lead, sep |-> sep, sc |-> "", root |-> root, foot |-> foot]
+DocC(lead, sc, root, foot) == [lead |-> lead, sep |-> TRUE, sc |-> sc, root |-> root, foot |-> foot]      \* `--- # sc`
 RootLines(r) == IF IsBlockColl(r) THEN (IF r.k = "map" THEN MapLines(r, 0) ELSE SeqLines(r, 0))
                 ELSE LET f == V(r, 0) IN <<L(0, f.first)>> \o f.rest
 \* lead lines: "" a blank line, " " a line of spaces only, "^text" a comment indented by five spaces (`     #text`), else `# text`
 LeadLine(l) == IF l = "" THEN "" ELSE IF l = " " THEN "    " ELSE IF l = "^indented" THEN "     #indented" ELSE "# " \o l
 LeadText(l) == IF l = "^indented" THEN "indented" ELSE l
-DocLines(d) == [i \in DOMAIN d.lead |-> L(0, LeadLine(d.lead[i]))] \o (IF d.sep THEN <<L(0, "---")>> ELSE <<>>) \o RootLines(d.root) \o (IF d.foot # "" THEN <<L(0, "# " \o d.foot)>> ELSE <<>>)
+DocLines(d) == [i \in DOMAIN d.lead |-> L(0, LeadLine(d.lead[i]))] \o (IF d.sep THEN <<L(0, "---" \o (IF d.sc # "" THEN " # " \o d.sc ELSE ""))>> ELSE <<>>) \o RootLines(d.root) \o (IF d.foot # "" THEN <<L(0, "# " \o d.foot)>> ELSE <<>>)
 Emit(s) == Text(FoldLeft(LAMBDA acc, d : acc \o DocLines(d), <<>>, s))
 \* presentation variants that denote the same stream: 2 = indented by 4, 3 = every document closed by `...`, 4 = CRLF line ends (harness)
 EmitVar(s, var) == CASE var = 2 -> TextWide(FoldLeft(LAMBDA acc, d : acc \o DocLines(d), <<>>, s))
@@ -111,7 +113,7 @@ NodeComments(n) ==
    ELSE IF n.k = "seq" THEN FoldLeft(LAMBDA acc, x : acc \o NodeComments(x), <<>>, n.es) ELSE <<>>) \o
   (IF n.fc # "" THEN <<n.fc>> ELSE <<>>)
 LeadComments(lead) == LET kept == SelectSeq(lead, LAMBDA l : l # "" /\ l # " ") IN [i \in DOMAIN kept |-> LeadText(kept[i])]
-DocComments(d) == LeadComments(d.lead) \o NodeComments(d.root) \o (IF d.foot # "" THEN <<d.foot>> ELSE <<>>)
+DocComments(d) == LeadComments(d.lead) \o (IF d.sc # "" THEN <<d.sc>> ELSE <<>>) \o NodeComments(d.root) \o (IF d.foot # "" THEN <<d.foot>> ELSE <<>>)
 Comments(s) == FoldLeft(LAMBDA acc, d : acc \o DocComments(d), <<>>, s)
 
 \* ---- well-formedness of a generated stream (laws of the generator)
